@@ -12,6 +12,8 @@ def INCLUDE(name):
 
 def replay(ob):
     n = ob["name"]
+    if "do_inference" in n:
+        return HEAD + "main(['initializer_shape_inference', 'initializer'])\n"
     if "process_node.never_raises_when_an_initializer" in n or "process_node.an_existing_initializer" in n or "process_node.the_folded_value_is_registered" in n:
         return HEAD + "main(['two_ifs_same_name'])\n"
     if "ScatterAllDynamic.check_never_raises" in n:
